@@ -144,11 +144,25 @@ fn candidates(w: &World, p: &Plan) -> Vec<(World, Plan)> {
         }
     }
     for i in 0..w.files.len() {
-        if let FileDiff::Insert { line, renamed_from: Some(_) } = &w.files[i].diff {
+        if let FileDiff::Insert { line, renamed_from: Some(_), edit } = &w.files[i].diff {
             let mut c = w.clone();
-            c.files[i].diff = FileDiff::Insert { line: *line, renamed_from: None };
+            c.files[i].diff = FileDiff::Insert { line: *line, renamed_from: None, edit: edit.clone() };
             out.push((c, p.clone()));
         }
+        if let FileDiff::Insert { line, renamed_from, edit } = &w.files[i].diff {
+            // a removal in front of an end tag has no insertion counterpart at the same line
+            let is_tag = render_file(&w.files[i], false).blocks.iter().any(|b| b.end_line == *line);
+            if *edit != LineEdit::Inserted && !is_tag {
+                let mut c = w.clone();
+                c.files[i].diff = FileDiff::Insert { line: *line, renamed_from: renamed_from.clone(), edit: LineEdit::Inserted };
+                out.push((c, p.clone()));
+            }
+        }
+    }
+    if w.diff_context != 0 {
+        let mut c = w.clone();
+        c.diff_context = 0;
+        out.push((c, p.clone()));
     }
     for i in 0..w.files.len() {
         if w.files[i].block_comments != 0 {
